@@ -866,6 +866,13 @@ class Symex:
             a = sym(a.name)
         if isinstance(b, Ext):
             b = sym(b.name)
+        if opname in ("in", "not in") and isinstance(a, Obj) and a.attrs.get("_identity") and not isinstance(b, (T, Obj)):
+            r = self.contains(b, a, node)
+            if isinstance(r, bool):
+                return r if opname == "in" else not r
+        if opname in ("is", "is not") and (a is None or b is None) and isinstance(b if a is None else a, Obj) \
+                and (b if a is None else a).attrs.get("_identity"):
+            return opname == "is not"   # a record declared to be a distinct object is not None
         if opname in ("in", "not in") and isinstance(a, Obj) and isinstance(b, (list, tuple, set, frozenset)) and \
                 all(isinstance(e, Obj) for e in b):
             # an abstract record among abstract records: identity, as for ``==`` of two records
@@ -911,7 +918,9 @@ class Symex:
 
     def contains(self, coll, x, node):
         if isinstance(coll, (list, tuple, set, frozenset, dict)) and (
-                isinstance(x, Atom) or isinstance(x, Ent) and not any(isinstance(e, T) for e in coll)):
+                isinstance(x, Atom) or (isinstance(x, Ent) or isinstance(x, Obj) and x.attrs.get("_identity"))
+                and not any(isinstance(e, T) for e in coll)):
+            # records declared pairwise distinct: membership is decided by identity, not forked on
             return any(e is x for e in coll)
         if isinstance(coll, Obj):
             coll = coll.term
